@@ -179,6 +179,7 @@ func runC19(c *Ctx) {
 	c19Guard(c)
 	c19Verbatim(c)
 	c19Special(c)
+	c19SpecialReachesOption(c)
 	c19Plumbing(c)
 	c19Resolver(c)
 	c19Manual(c)
@@ -707,6 +708,47 @@ func isHostPortPredicate(h *ssa.Function) bool {
 		}
 	})
 	return okAll && n > 0
+}
+
+// c19SpecialReachesOption: the documented special values (-1 = disabled / unlimited, 0 = forever /
+// none) are told apart inside the library options. The option must test the value it was given:
+// a parameter rewritten first (`ttl = ttl.Truncate(time.Millisecond)` turns -1ns into 0) changes
+// which special case applies.
+func c19SpecialReachesOption(c *Ctx) {
+	const rule = "the options that interpret special values (DNSCaching, MaxBody, Redirects) never reassign the parameter carrying the value before interpreting it"
+	for _, name := range []string{"DNSCaching", "MaxBody", "Redirects"} {
+		fn := c.P.Func("lib", name)
+		key := "special-reaches-option:lib." + name
+		if fn == nil {
+			c.Undecided(key, rule, "lib."+name+" not found")
+			continue
+		}
+		c.Saw("function " + shortFn(fn))
+		var bad []ssa.Instruction
+		for _, p := range fn.Params {
+			// a parameter that is captured or assigned lives in a cell initialised from it
+			for _, r := range refs(p) {
+				st, ok := r.(*ssa.Store)
+				if !ok || st.Val != ssa.Value(p) {
+					continue
+				}
+				cell := st.Addr
+				for _, g := range withAnon(fn) {
+					eachInstr(g, func(i ssa.Instruction) {
+						s2, isSt := i.(*ssa.Store)
+						if !isSt || s2 == st {
+							return
+						}
+						if rootCell(s2.Addr) == cell || s2.Addr == cell {
+							bad = append(bad, s2)
+						}
+					})
+				}
+			}
+		}
+		sortInstrs(bad)
+		c.Check(len(bad) == 0, key, rule, "the value is interpreted as given", "the parameter is rewritten before it is interpreted: a special value (-1, 0) can turn into another one", c.atsOr(bad, fn)...)
+	}
 }
 
 func c19Special(c *Ctx) {
